@@ -1,6 +1,6 @@
 /- `chessdrv`: line protocol driver.  One request per line on stdin, one answer line on stdout:
 `<model answer> ## <specification answer>`. -/
-import ChessVerif.Drv.LookupH
+import ChessVerif.Drv.Iter
 
 open Chess Chess.Drv
 
@@ -17,6 +17,11 @@ def dispatch (line : String) : Ans :=
   | "lookup" :: r => handleLookup r
   | "gen" :: r => handleLookup r
   | "zob" :: r => handleZob r
+  | "pos" :: r => handlePos r
+  | "fen" :: r => handleFen r
+  | "mgiter" :: r => handleIter2 r
+  | "build" :: r => handleBuild r
+  | "expect" :: r => handleExpect r
   | _ => bad
 
 partial def loop (hin hout : IO.FS.Stream) : IO Unit := do
